@@ -16,9 +16,9 @@ old one with a prime, in the old one's namespace:
                    C11_neighbours_undisturbed', C11_undefined_refused', C11_missing_or_duplicate_refused',
                    C11_histories_presentations', items_arrays'
 
-NOT restated (no pure replacement): the state-level history theorems of Props/C10.lean (`batches`, `batches_interp`:
-their invariant `Holds` carries `WFB` / `Safe`), and the completeness direction Props/C01Complete.lean (`push_complete`
-and what is built on it is its own mutual recursion under `Safe`).
+Not pure replacements, ported separately: the state-level history theorems of Props/C10.lean (`batches'`,
+`batches_interp'`: Props/C10Obs.lean, invariant `HoldsH`) and the completeness direction (`push_complete'` …
+`toMarrow_complete_decode'`: Props/C01CompleteObs.lean, its own mutual recursion on the weak invariant).
 -/
 
 namespace SaModel.Props.C05
